@@ -236,6 +236,9 @@ func (st *runState) runProc(pi int, ops []Op) {
 func (st *runState) cacheFiles() []simos.Entry {
 	var out []simos.Entry
 	for _, e := range st.fs.Walk() {
+		if strings.Contains(e.Path, "/.tmp/") {
+			continue
+		}
 		out = append(out, e)
 	}
 	return out
